@@ -5,6 +5,7 @@ package barriers
 // Contracts for the deductive verifier in /verif (comment-only file; see /verif/DESIGN.md).
 
 //@ type barrierErr invariant self.maskedErr != nil
+//@ type barrierErr invariant[C03] rsafe(self.smsg)
 
 //@ method (*barrierErr).Error
 //@   props C10 C07
@@ -31,7 +32,9 @@ package barriers
 //@   ensures err != nil ==> typeis(result, *barrierErr) && result.(*barrierErr).maskedErr == err
 
 //@ func decodeBarrier
-//@   props C05 C01 C07
+//@   props C05 C01 C07 C03
+//@   requires[C03] rsafe(msg)
+//@   requires[C03,C12] typeis(payload, *errorspb.EncodedError) && payload.(*errorspb.EncodedError).Error != nil ==> safeEnc(deref(payload.(*errorspb.EncodedError)))
 //@   requires typeis(payload, *errorspb.EncodedError) && payload.(*errorspb.EncodedError).Error != nil ==> complete(deref(payload.(*errorspb.EncodedError)))
 //@   ensures typeis(payload, *errorspb.EncodedError) && payload.(*errorspb.EncodedError).Error != nil ==> typeis(result, *barrierErr) && result.(*barrierErr).smsg == msg
 
